@@ -8,6 +8,7 @@ import (
 	"errors"
 	"fmt"
 	"io"
+	"strings"
 	"time"
 
 	"go.opentelemetry.io/collector/pdata/pcommon"
@@ -329,6 +330,18 @@ func c03Run(r *vkit.Run) {
 		r.State(vkit.J(seq))
 		if r.WantSample() && len(seq) == maxLen {
 			r.Sample(map[string]any{"records": seq, "stream_bytes": B, "env_example": c03Env{Kind: "cuts", Cuts: []int{3, B - 2}}})
+		}
+	}
+	// frames larger than common buffer sizes (4 KiB, 32 KiB, 64 KiB): decoded whole, under a few fragmentations
+	if r.Shard == 0 {
+		for _, n := range []int{4095, 4097, 32769, 70000} {
+			big := c03Rec{Stream: 1, TS: alpha[0].TS, NS: alpha[0].NS, Msg: strings.Repeat("x", n-1) + "y"}
+			for _, seq := range [][]c03Rec{{big}, {alpha[1], big, alpha[5]}} {
+				for _, e := range []c03Env{{Kind: "full"}, {Kind: "framewise"}, {Kind: "cuts", Cuts: []int{8, 4096 + 8}}, {Kind: "eof-with-data"}, {Kind: "truncate", At: n / 2}} {
+					c03Check(r, c03Input{Recs: seq, Env: e})
+					cases++
+				}
+			}
 		}
 	}
 	r.Count("decoder_runs", cases)
